@@ -104,6 +104,7 @@ type ChanObj struct {
 	buf    []Value
 	cap    int
 	closed bool
+	init   bool // made by a package initialiser: shared by all paths, so every path works on its own copy (Run.cs)
 }
 type ChanV struct{ c *ChanObj }
 
